@@ -1,12 +1,33 @@
 #!/bin/bash
-# tools/rerun_all_seeded.sh [name-glob]   re-run every stored seeded change against all quick checks
-# (meant for `vp run --with-repo -- bash -c 'VERIF_REPO=$VP_RUN_REPO tools/rerun_all_seeded.sh'`: works on
+# tools/rerun_all_seeded.sh [name-glob]   re-run every stored seeded change against the quick checks
+# FOCUS=1: only the check of the property the change was written for and the checks that reported it
+# before are re-run; their lines in results.txt are replaced, the other lines are kept.
+# (meant for `vp run --with-repo -- bash -c 'VERIF_REPO=$VP_RUN_REPO FOCUS=1 tools/rerun_all_seeded.sh'`: works on
 # the snapshot's own copy of the repository and of /verif; results land in seeded/<name>/results.txt there)
 set -u
 cd "$(dirname "$0")/.."
 for d in seeded/${1:-*}/; do
   n=$(basename "$d")
-  VERIF_WALL_CAP_S=${VERIF_WALL_CAP_S:-150} tools/run_seeded.sh "$d/patch.diff" > "$d/results.txt.new" 2>&1
-  mv "$d/results.txt.new" "$d/results.txt"
-  echo "$n :: $(grep -c ' ok$' "$d/results.txt") ok :: $(grep -o '^C[0-9][0-9] VIOLATION' "$d/results.txt" | cut -c1-3 | tr '\n' ' ') :: $(grep -o '^C[0-9][0-9] MACHINERY' "$d/results.txt" | cut -c1-3 | tr '\n' ' ')"
+  ids=""
+  if [ "${FOCUS:-0}" = 1 ] && [ -f "$d/results.txt" ]; then
+    own=$(python3 -c "import json;print(json.load(open('$d/meta.json'))['breaks_property'])")
+    ids="$own $(grep -o '^C[0-9][0-9] \(VIOLATION\|MACHINERY\)' "$d/results.txt" | cut -c1-3 | tr '\n' ' ')"
+    ids=$(echo $ids | tr ' ' '\n' | sort -u | tr '\n' ' ')
+  fi
+  VERIF_WALL_CAP_S=${VERIF_WALL_CAP_S:-150} tools/run_seeded.sh "$d/patch.diff" $ids > "$d/results.txt.new" 2>&1
+  if [ -n "$ids" ]; then
+    python3 - "$d" <<'PY'
+import sys,re
+d=sys.argv[1]
+old=open(d+'/results.txt').read().splitlines()
+new={l[:3]:l for l in open(d+'/results.txt.new').read().splitlines() if re.match(r'^C\d\d ',l)}
+extra=[l for l in open(d+'/results.txt.new').read().splitlines() if not re.match(r'^C\d\d ',l)]
+out=[new.get(l[:3],l) if re.match(r'^C\d\d ',l) else l for l in old]
+open(d+'/results.txt','w').write('\n'.join(out+extra)+'\n')
+PY
+    rm -f "$d/results.txt.new"
+  else
+    mv "$d/results.txt.new" "$d/results.txt"
+  fi
+  echo "$n :: $(grep -c ' ok$' "$d/results.txt") ok :: $(grep -o '^C[0-9][0-9] VIOLATION' "$d/results.txt" | cut -c1-3 | tr '\n' ' ') :: $(grep -o '^C[0-9][0-9] MACHINERY' "$d/results.txt" | cut -c1-3 | tr '\n' ' ') :: $(grep -v '^C[0-9][0-9] ' "$d/results.txt" | head -1)"
 done
